@@ -37,6 +37,9 @@ class ListModel:
 
 class C18(core.Check):
     pid = 'C18'
+    unproved = [
+        'equal-length slice assignment (__setitem__ with a slice): correspondence + list oracle',
+    ]
     rule = ('correspondence: seeded operation sequences (append, append_multiple, get, slice, set, setslice, delete, flush, '
             'last, past; buckets 1-5, with/without drop_at; valid and malformed operands) replayed step by step on the real '
             'DynamicNumpyArray and on the Lean model through the line protocol, comparing the full abstract state (length, '
